@@ -96,6 +96,10 @@ def check_drain_publish(ctx, facts, cfg, crec):
     for need in ("commit_read", "empty", "prepare_read"):
         if need not in meths:
             raise AnalysisBroken("%s::%s not found" % (cname, need))
+    have = {x["name"] for x in crec["fields"]}
+    for need in ("_atomic_writer_pos", "_atomic_reader_pos", "_writer_pos", "_reader_pos", "_reader_pos_cache", "_writer_pos_cache"):
+        if need not in have:       # the rules below name these members: without them nothing is decided (never a violation)
+            raise AnalysisBroken("anchor field %s::%s not found" % (cname, need))
 
     def publishes(m):
         out = []
